@@ -85,7 +85,9 @@ def detect(sid, props=None):
     d = os.path.join(SEEDED, sid)
     rc, out = sh('git -C /repo status --porcelain --untracked-files=no')
     assert out.strip() == '', '/repo is not clean: ' + out
-    rc, out = sh('git -C /repo apply %s' % os.path.join(d, 'patch.diff')); assert rc == 0, out
+    rc, out = sh('git -C /repo apply %s' % os.path.join(d, 'patch.diff'))
+    if rc != 0:      # the code the patch edits has changed (e.g. by a fix: commit): the seed has to be rebased or retired, the sweep goes on
+        print(sid, 'PATCH DOES NOT APPLY:', out.strip()[:200]); sh('git -C /repo checkout -- .'); return
     res = {}
     meta0 = json.load(open(os.path.join(d, 'meta.json')))
     plist = props or [p for p in ALL if p != 'C09' or str(meta0.get('property', '')).startswith('C09')]
@@ -141,4 +143,6 @@ if __name__ == '__main__':
         for sid in sorted(x for x in os.listdir(SEEDED) if not x.startswith('_')): detect_scratch(sid)
     if cmd == 'table': table()
     if cmd == 'detect-all':
-        for sid in sorted(x for x in os.listdir(SEEDED) if not x.startswith('_')): detect(sid)
+        only = sys.argv[2:]
+        for sid in sorted(x for x in os.listdir(SEEDED) if not x.startswith('_')):
+            if not only or any(sid.startswith(o) for o in only): detect(sid)
